@@ -87,6 +87,12 @@ def expr_json(e):
     return ["Opaque", ast.unparse(e), loads, stores, args]
 
 
+def _no_binding_inside(node, what):
+    for sub in ast.walk(node):
+        if isinstance(sub, (ast.NamedExpr, ast.Yield, ast.YieldFrom, ast.Await)):
+            raise Unsupported("%s inside %s" % (type(sub).__name__, what))
+
+
 def target_json(t):
     if isinstance(t, ast.Name):
         return ["TName", t.id]
@@ -171,9 +177,13 @@ def stmt_json(s, glb):
         return ["With", expr_json(it.context_expr),
                 None if it.optional_vars is None else target_json(it.optional_vars), B(s.body)]
     if isinstance(s, ast.FunctionDef):
+        for h in [*s.decorator_list, *s.args.defaults, *[d for d in s.args.kw_defaults if d is not None]]:
+            _no_binding_inside(h, "the header of a nested def")
         loads = _scope_loads([*s.decorator_list, *s.args.defaults, *[d for d in s.args.kw_defaults if d is not None]])
         return ["Def", s.name, ast.unparse(s), loads]
     if isinstance(s, ast.ClassDef):
+        for h in [*s.bases, *[k.value for k in s.keywords], *s.decorator_list]:
+            _no_binding_inside(h, "the header of a nested class")
         return ["Class", s.name, ast.unparse(s), _scope_loads([*s.bases, *[k.value for k in s.keywords], *s.decorator_list])]
     if isinstance(s, (ast.Import, ast.ImportFrom)):
         bound = [(a.asname or a.name.split(".")[0]) for a in s.names]
